@@ -237,15 +237,17 @@ class Prover:
                 elif st == "unsat-field":
                     self.stats["field"] = self.stats.get("field", 0) + 1
                     r = ("proved", "field+z3", dt, None, None)
-            if r is None:
-                r = self.check(hyps, g, eval_terms=eval_terms)
-            if r[0] == "unknown":
+            if r is None and not has_quantifier(g):
+                # cheap and stable first: ground hypotheses only, no quantified axioms (fewer
+                # hypotheses: still a proof when it succeeds)
                 hs = split_hyps(hyps)
                 ground = [h for h in hs if not has_quantifier(h)]
-                if len(ground) < len(hs):
-                    r2 = self.check(ground, g, want_model=False)
+                if len(ground) < len(hs) or self.axioms:
+                    r2 = self.check(ground, g, want_model=False, timeout_ms=min(3000, self.timeout_ms), axioms=False)
                     if r2[0] == "proved":
                         r = r2
+            if r is None:
+                r = self.check(hyps, g, eval_terms=eval_terms)
             total += r[2]
             if r[0] == "refuted":
                 m = r[3] or {}
@@ -261,27 +263,35 @@ class Prover:
         """Is the conjunction satisfiable?  (cover / feasibility).  Returns 'sat'|'unsat'|'unknown'."""
         s = z3.Solver()
         s.set("timeout", timeout_ms)
-        for a in self.axioms:
-            s.add(a)
-        for h in hyps:
-            s.add(h)
+        # quantified axioms/hypotheses are left out: a subset of the constraints being unsat
+        # still means the whole set is unsat, and 'sat' answers become possible
+        for h in split_hyps(hyps):
+            if not has_quantifier(h):
+                s.add(h)
         r = s.check()
         return str(r)
 
     def _cli(self, solver):
         smt = "(set-logic ALL)\n" + solver.to_smt2()
+        # z3 prints its internal variants of seq.nth; cvc5 knows only seq.nth (both leave
+        # out-of-bounds access unspecified)
+        smt = smt.replace("seq.nth_u", "seq.nth").replace("seq.nth_i", "seq.nth")
         fd, path = tempfile.mkstemp(suffix=".smt2", prefix="pyvc_")
         os.write(fd, smt.encode())
         os.close(fd)
         tsec = max(2, self.timeout_ms // 1000)
+        csec = 3 * tsec        # cvc5 decides the sequence/quantifier obligations z3 leaves open; give it room
         try:
-            for be, cmd in (("cvc5", ["/usr/bin/cvc5", "--strings-exp", "--tlimit=%d" % (tsec * 1000), path]),
-                            ("z3-new", ["z3-new", "-T:%d" % tsec, path])):
+            for be, cmd, lim in (("cvc5", ["/usr/bin/cvc5", "--strings-exp", "--tlimit=%d" % (csec * 1000), path], csec),
+                                 ("z3-new", ["z3-new", "-T:%d" % tsec, path], tsec)):
+                t1 = time.time()
                 try:
-                    out = subprocess.run(cmd, capture_output=True, text=True, timeout=tsec + 5).stdout
+                    out = subprocess.run(cmd, capture_output=True, text=True, timeout=lim + 5).stdout
                 except Exception:
                     continue
                 first = out.strip().splitlines()[0] if out.strip() else ""
+                if DEBUG:
+                    print("PYVC-CLI %s %.2fs -> %s" % (be, time.time() - t1, first[:60]))
                 if first in ("sat", "unsat"):
                     return first, be
         finally:
